@@ -459,7 +459,8 @@ impl RHost {
                     out.sent.push(k);
                     shell.typed.insert(k, req);
                 }
-                None => shell.now_typed.push(req),
+                None if matches!(req.operation, TimeRequest::Now) => shell.now_typed.push(req),
+                None => {}
             }
         }
     }
@@ -479,7 +480,8 @@ impl RHost {
                     out.sent.push(k);
                     shell.ids.insert(k, r.id.0);
                 }
-                None => shell.now_ids.push(r.id.0),
+                None if matches!(op, TimeRequest::Now) => shell.now_ids.push(r.id.0),
+                None => {}
             }
         }
     }
